@@ -215,3 +215,70 @@ def requires_auth_units(prop):
     from vf.unit import Unit
     return [Unit(f'{prop}.requires_auth_{kind}', UTILS_PY, 'requires_auth.wrapper', reauth_setup(kind), reauth_post(prop, kind),
                  nth=nth, stmt=_wrapper_region, prop=prop) for nth, kind in ((0, 'async'), (1, 'sync'))]
+
+
+# ------------------------------------------------------------------ the give-up predicates of the retry decorators
+def _giveup_name(relpath, deco):
+    node = source.module_assign(relpath, deco)
+    for _ in range(3):
+        if isinstance(node, ast.Call):
+            for k in node.keywords:
+                if k.arg == 'giveup' and isinstance(k.value, ast.Name):
+                    return k.value.id
+            if isinstance(node.func, ast.Name):
+                try:
+                    node = source.module_assign(relpath, node.func.id)
+                    continue
+                except source.SelectorError:
+                    return None
+        break
+    return None
+
+
+def giveup_setup(kind):
+    def setup(b):
+        from vf import sym
+        from vf.interp import Exc, Obj
+        from specs import shared
+        code = sym.const(sym.INT, 'status_code')
+        b.code = code
+        if kind == 'status':
+            resp = Obj('response', status_code=code)
+            resp._lenient = True
+            b.bind('e', Exc('HTTPStatusError', attrs={'response': resp}))
+        else:
+            b.bind('e', Exc('ConnectError'))
+        b.bind('httpx', Obj('httpx', HTTPStatusError=shared.ExcClass('HTTPStatusError'), HTTPError=shared.ExcClass('HTTPError'),
+                            codes=Obj('codes', FORBIDDEN=403, NOT_FOUND=404, UNAUTHORIZED=401, TOO_MANY_REQUESTS=429, BAD_REQUEST=400)))
+    return setup
+
+
+def giveup_post(prop, where, kind):
+    def post(res):
+        from vf import sym
+        b = res.builder
+        for p in res.paths:
+            if p.kind != 'return':
+                res.oblige(p, f'{prop}.retry.{where}.giveup.total', z3.BoolVal(False))
+                continue
+            r = p.value
+            gives_up = sym.lift(r, sym.BOOL).z if isinstance(r, (bool, sym.SV)) else z3.BoolVal(True)
+            if kind == 'status':
+                # retrying stops early ONLY for 403 (credentials rejected: repeating cannot help); 429, 408, 5xx and every
+                # other answer stay inside the retry budget (C12: transient faults are masked)
+                res.oblige(p, f'{prop}.retry.{where}.gives_up_only_on_403', z3.Implies(gives_up, b.code.z == 403))
+            else:
+                res.oblige(p, f'{prop}.retry.{where}.connection_errors_are_retried', z3.Not(gives_up))
+    return post
+
+
+def giveup_units(prop):
+    from vf.unit import Unit
+    out = []
+    for relpath, decos in FINITE.items():
+        names = {_giveup_name(relpath, d) for d in sorted(decos)} - {None}
+        where = relpath.split('/')[-1]
+        for nm in sorted(names):
+            for kind in ('status', 'connection'):
+                out.append(Unit(f'{prop}.giveup.{where}.{nm}[{kind}]', relpath, nm, giveup_setup(kind), giveup_post(prop, where, kind), prop=prop))
+    return out
